@@ -217,7 +217,10 @@ v("c11-reader-dedup-guard", {"C11", "C02", "C14"}, (NED, "                if nod
 v("c11-translator-filters-constraint-nodes", {"C11", "C03", "C10"}, (NED, "                expanded_constraint.append((node + '.0', node + '.1'))",
                                                                       "                if self.node_flow_attr in self.original_G.nodes[node]:\n                    expanded_constraint.append((node + '.0', node + '.1'))", 1))
 v("c11-translator-filters-starts", {"C11", "C10"}, (NED, "        return [self.get_expanded_edge(node)[0] for node in additional_starts]", "        return [self.get_expanded_edge(node)[0] for node in additional_starts if self.original_G.in_degree(node) > 0]", 1))
-v("c06-flow-safety-threshold-strict", {"C06", "C05"}, ("flowpaths/utils/safetyflowdecomp.py", "if inexact_excess + rightdiff <= 1e-9:", "if inexact_excess + rightdiff < 0:", 1))
+# (since the record guard `inexact_excess > 1e-9` exists, the stop test alone no longer decides safety: strict is property-preserving, both relaxed is not)
+v("benign-flow-safety-threshold-strict-under-record-guard", B, ("flowpaths/utils/safetyflowdecomp.py", "if inexact_excess + rightdiff <= 1e-9:", "if inexact_excess + rightdiff < 0:", 1))
+v("c06-flow-safety-threshold-strict", {"C06", "C05"}, ("flowpaths/utils/safetyflowdecomp.py", "if inexact_excess + rightdiff <= 1e-9:", "if inexact_excess + rightdiff < 0:", 1),
+  ("flowpaths/utils/safetyflowdecomp.py", "if path_not_suffix_of_previous and inexact_excess > 1e-9:", "if path_not_suffix_of_previous and inexact_excess >= 0:", 1))
 v("benign-flow-safety-threshold-restyled", B, ("flowpaths/utils/safetyflowdecomp.py", "if inexact_excess + rightdiff <= 1e-9:", "if 1e-9 >= rightdiff + inexact_excess:", 1))
 # --- C17.R4 reachability DP direction
 SDAG = "flowpaths/stdag.py"
